@@ -49,4 +49,14 @@ structure SrcEntry where
   target : Option Str := none    -- symlinks only
   deriving DecidableEq, Repr, Inhabited
 
+def nanosPerSec : Int := 1000000000
+
+/-- `IndexEntry::mtime()` as nanoseconds since the epoch: `Timestamp::new(mtime, nanos as i32)`.
+`none` = `try_into::<i32>().unwrap()` or the range `expect` panics. -/
+def entryTimeNs (sec : Int) (nanos : Nat) : Option Int :=
+  if nanos ≥ 2147483648 then none
+  else if nanos > 999999999 then none
+  else if sec < -377705023201 ∨ sec > 253402207200 then none
+  else some (sec * nanosPerSec + nanos)
+
 end Conserve
